@@ -12,7 +12,7 @@ sys.path.insert(0, os.path.join(ROOT, "harness", "py"))
 def klass(rec):
     m = rec.get("m") or {}
     if rec["e"] in ("enc",):
-        return "%s-v%s" % (rec["cls"], m.get("ver"))
+        return "%s-v%s%s" % (rec["cls"], m.get("ver"), "-reused-object" if rec.get("reused") else "")
     if rec["e"] == "dec":
         raw = rec["raw"]
         return "%s-parse-v%s" % (rec["cls"], (raw[0] >> 4) if raw else "none")
@@ -35,6 +35,18 @@ def python_records(ctx, n_enc, n_dec):
         recs.append(rec)
         if raw is not None:
             raws.append((d["cls"], raw))
+    # the same laws on long-lived objects: a message object that is re-assigned and re-encoded (burst changed
+    # in place), decoded by a decoder object that is reused across classes of messages / header versions
+    objs = {}
+    for j in range(n_enc // 3):
+        d = D.rand_tx(rng) if rng.random() < 0.35 else D.rand_rx(rng)
+        m = objs.get(d["cls"])
+        if m is None:
+            m = objs[d["cls"]] = D.mk_tx(d) if d["cls"] == "tx" else D.mk_rx(d)
+            m.gen_msg(False)
+        if rng.random() < 0.5 and m.burst is not None and d["burst"]["has"] and len(m.burst) == len(d["burst"]["bits"]):
+            pass                                    # same length: assign() changes the bits in place
+        recs.append(D.enc_record_reused("u%d" % j, m, d, rng.random() < 0.5))
     # every (modulation, TSC set, TSC) combination once, both NOPE forms
     k = n_enc
     for mod in sorted(D.MODK):
